@@ -76,6 +76,30 @@ class C15(Prop):
         case["backend"] = ("asyncio", "trio")[index % 2]
         return case
 
+    def exhaustive(self, tier: str):
+        """The whole decision table on two fixed applications, both back-ends (both tiers)."""
+        apps = [
+            [{"regs": [{"id": 1, "pass": True, "async": False}, {"id": 2, "pass": False, "async": True}], "svc": 1, "tick": 0}],
+            [{"regs": [{"id": 1, "pass": False, "async": False}], "svc": 0, "tick": 1},
+             {"regs": [{"id": 2, "pass": True, "async": True}, {"id": 3, "pass": True, "async": False}], "svc": 1, "tick": 0},
+             {"regs": [{"id": 4, "pass": False, "async": False}], "svc": 2, "tick": 2}],
+        ]
+        endings: list[dict[str, Any]] = [{"k": "cliReturn", "r": "none"}, {"k": "cliReturn", "r": "other"}]
+        endings += [{"k": "cliReturn", "r": "int", "n": n} for n in (0, 1, 2, 126, 127, 128, 255, 256, 1000, -1, -127, -128)]
+        endings += [{"k": "cliRaise", "e": 1}, {"k": "startupFail"}, {"k": "startupTimeout"},
+                    {"k": "signalDuringStartup", "sig": "SIGINT"}, {"k": "signalDuringStartup", "sig": "SIGTERM"},
+                    {"k": "signalAfterStartup", "sig": "SIGINT", "d": 10}, {"k": "signalAfterStartup", "sig": "SIGTERM", "d": 10},
+                    {"k": "crashAfterStartup", "e": 2, "d": 10}]
+        cases = []
+        for backend in ("asyncio", "trio"):
+            for comps in apps:
+                for e in endings:
+                    for comp in {0, len(comps) - 1}:
+                        for cli in ((True,) if e["k"].startswith("cli") else (False,) if e["k"] == "signalAfterStartup" else (True, False)):
+                            cases.append({"kind": "runner", "backend": backend, "cli": cli, "comps": comps,
+                                          "ending": {"comp": comp, "mid": True, "d": 0, **e}, "origin": "decision-table"})
+        return cases
+
     def run_impl(self, case):
         from ..impl.runner import run_runner_case
 
